@@ -23,6 +23,16 @@ type Env struct {
 	lits    map[string]string // macro parameters bound to string literals (type names)
 	resAlias map[string]string // callee result names renamed since the contract was written
 	paramsEntry bool // postconditions: a parameter name denotes the value the caller passed, even if the body reassigns it
+	// cells: names bound to memory cells (the captured variables of a closure
+	// called where it was made); read in whichever state the expression is
+	// evaluated in, so a postcondition sees the value after the call and old()
+	// the value before it
+	cells map[string]cellBind
+}
+
+type cellBind struct {
+	loc *Loc
+	typ types.Type
 }
 
 func (env *Env) with(st *State) *Env {
@@ -132,6 +142,9 @@ func (x *Exec) evalIdent(name string, env *Env) Val {
 	}
 	if v, ok := env.binders[name]; ok {
 		return v
+	}
+	if cb, ok := env.cells[name]; ok {
+		return Val{T: e.load(env.st, cb.loc), Sort: e.sortOf(cb.typ), GT: cb.typ}
 	}
 	if a, ok := x.alias[name]; ok && !env.closed {
 		// the variable was renamed since the contract was written (hints.go)
